@@ -8,4 +8,4 @@ CONSTANTS
   RegPhases = {}
   WithBad = FALSE
   Bug = {}
-INVARIANTS AtEnd C15_Completes C15_Values C15_Leftovers C15_FileNodes C15_Idempotent C15_SettingHook C15_ObjectHook C15_Register C15_LastGood
+INVARIANTS C15_Completes C15_Values C15_Leftovers C15_FileNodes C15_Idempotent C15_SettingHook C15_ObjectHook C15_Register C15_LastGood
